@@ -19,6 +19,25 @@ for tc in ET.parse(xml).getroot().iter("testcase"):
         passed.add(tc.get("classname") + "::" + tc.get("name"))
 os.unlink(xml)
 missing = [t for t in base["stable_pass"] if t not in passed]
+# a stable test that fails once may be flaky (e.g. the random sampling in
+# TestFromRepeats): re-run just those, twice at most
+for _ in range(2):
+    if not missing or len(missing) > 10:
+        break
+    ids = []
+    for t in missing:
+        cls, name = t.split("::")
+        parts = cls.split(".")
+        ids.append("/".join(parts[:-1]) + ".py::" + parts[-1] + "::" + name)
+    fd, xml = tempfile.mkstemp(suffix=".xml", dir="/dev/shm"); os.close(fd)
+    subprocess.run(["/venv/bin/python", "-m", "pytest", "-q", "-p", "no:cacheprovider",
+                    "--timeout=900", "--junitxml=" + xml] + ids, cwd=repo, env=env,
+                   stdout=subprocess.DEVNULL, stderr=subprocess.DEVNULL)
+    for tc in ET.parse(xml).getroot().iter("testcase"):
+        if not any(c.tag in ("failure", "error", "skipped") for c in tc):
+            passed.add(tc.get("classname") + "::" + tc.get("name"))
+    os.unlink(xml)
+    missing = [t for t in base["stable_pass"] if t not in passed]
 print("stable_pass: %d, passing now: %d, missing: %d" % (len(base["stable_pass"]), len(base["stable_pass"]) - len(missing), len(missing)))
 for t in missing[:20]:
     print("  NOT PASSING:", t)
